@@ -10,6 +10,7 @@
 #if SIM_PART == 0
     #define SIM_MAIN_TU 1
 #endif
+#include "../sim/driver.hpp"
 #include "../sim/worker.hpp"
 
 #include <vector>
@@ -1125,9 +1126,14 @@ struct VecDriver {
             bool const flt = st.flt != 0 && misuse;
             size_t n       = static_cast<size_t>(st.k[1] % (N + 1));
             bool bad       = false;
+            bool reversedCtor = false;
             if (flt && (form == 1 || form == 2 || form == 3)) {
                 n   = form == 3 ? N + static_cast<size_t>(st.flt) : static_cast<size_t>(beyond(N + 1, st.flt));
                 bad = true;
+                if (form == 3 && st.flt == 3 && N != 0) {
+                    reversedCtor = true; // (last, first): a negative distance
+                    n            = 1 + static_cast<size_t>(st.k[1] % N);
+                }
             }
             ctx.log.kv("n", static_cast<long long>(n));
             size_t const before = model[a].size();
@@ -1154,7 +1160,8 @@ struct VecDriver {
                     break;
                 case 3:
                     if constexpr (copyable) {
-                        made = new (mem) Vec(static_cast<T const*>(r.buf.begin()), static_cast<T const*>(r.buf.end()));
+                        made = reversedCtor ? new (mem) Vec(static_cast<T const*>(r.buf.end()), static_cast<T const*>(r.buf.begin()))
+                                            : new (mem) Vec(static_cast<T const*>(r.buf.begin()), static_cast<T const*>(r.buf.end()));
                     }
                     break;
                 case 4:
@@ -1496,6 +1503,407 @@ struct VecDriver {
     static auto find_op(int idx) -> char const* { return ops()[static_cast<size_t>(idx)].name; }
 };
 
+// ================================================================================================ stack
+// stack<T, static_vector<T,N>>: LIFO adaptor without assignment operators (a declared move constructor deletes
+// them). The whole content is observed by popping a copy.
+template <typename T, size_t N>
+struct StackDriver : DriverBase<StackDriver<T, N>> {
+    using Base = DriverBase<StackDriver<T, N>>;
+    using Base::begin_op;
+    using Base::call;
+    using Base::ctx;
+    using Base::misuse;
+    using Base::observe;
+    using Base::plan;
+    using Base::pool;
+    using Base::skip;
+    using C = etl::static_vector<T, N>;
+    using S = etl::stack<T, C>;
+    static constexpr bool tracked = is_tracked_v<T>;
+
+    S* obj[3] = {nullptr, nullptr, nullptr};
+    std::vector<int> model[3];
+    bool moved[3] = {false, false, false};
+
+    StackDriver(Plan const& p, Ctx& c)
+        : Base(p, c)
+    {
+    }
+
+    auto raw(int s) -> void* { return arena_prepare(s, sizeof(S), plan.cfg, static_cast<uint64_t>(ctx.step + 1)); }
+
+    void destroy(int s)
+    {
+        if (obj[s] == nullptr) {
+            return;
+        }
+        auto* lo = slot_obj(s);
+        guarded(true, [&] { obj[s]->~S(); });
+        if constexpr (tracked) {
+            if (reg().live_in(lo, lo + sizeof(S)) != 0) {
+                ctx.violation("C03", "lifetime:alive-after-owner-destroyed", "elements alive inside a destroyed stack");
+                reg().forget_range(lo, lo + sizeof(S));
+            }
+        }
+        if (!arena_guards_ok(s)) {
+            ctx.violation("C02", "memory:guard-damaged", "guard bytes around the stack were overwritten");
+        }
+        arena_retire(s);
+        obj[s] = nullptr;
+    }
+
+    void resync(int s)
+    {
+        if (obj[s] == nullptr || obj[s]->size() > N) {
+            ctx.stop = true;
+            return;
+        }
+        model[s].clear();
+        void* mem = arena_prepare(kTemp, sizeof(S), plan.cfg, 4242);
+        guarded(false, [&] {
+            S* tmp = new (mem) S(static_cast<S const&>(*obj[s]));
+            while (!tmp->empty()) {
+                model[s].insert(model[s].begin(), static_cast<int>(value_of(tmp->top())));
+                tmp->pop();
+            }
+            tmp->~S();
+        });
+        arena_retire(kTemp);
+    }
+
+    auto check_state(int s, char const* prop, char const* prefix) -> bool
+    {
+        bool mismatch = false;
+        auto bad      = [&](char const* what, long long got, long long want) {
+            mismatch = true;
+            ctx.violation(prop, std::string(prefix) + ":" + what, std::string(what) + " got " + std::to_string(got) + " want " + std::to_string(want) + " (slot " + std::to_string(s) + ")");
+        };
+        std::vector<int> const& m = model[s];
+        void* mem                 = arena_prepare(kTemp, sizeof(S), plan.cfg, 4243);
+        bool ok                   = observe("stack", [&] {
+            S const& cs = *obj[s];
+            if (cs.size() > N) {
+                bad("size>capacity", static_cast<long long>(cs.size()), static_cast<long long>(N));
+                ctx.stop = true;
+                return;
+            }
+            if (moved[s]) {
+                return;
+            }
+            if (cs.size() != m.size() || cs.empty() != m.empty()) {
+                bad("size", static_cast<long long>(cs.size()), static_cast<long long>(m.size()));
+                return;
+            }
+            if (!m.empty() && (value_of(cs.top()) != m.back() || value_of(obj[s]->top()) != m.back())) {
+                bad("top", value_of(cs.top()), m.back());
+                return;
+            }
+            // the whole content, in LIFO order, through a copy
+            S* tmp   = new (mem) S(cs);
+            size_t i = m.size();
+            while (!tmp->empty()) {
+                if (i == 0 || value_of(tmp->top()) != m[--i]) {
+                    bad("element", i == 0 ? -1 : value_of(tmp->top()), i == 0 ? -1 : m[i]);
+                    break;
+                }
+                tmp->pop();
+            }
+            tmp->~S();
+        });
+        arena_retire(kTemp);
+        if (!ok) {
+            ctx.stop = true;
+        }
+        return !mismatch;
+    }
+
+    void observe_all()
+    {
+        static char const* const names[6] = {"==", "!=", "<", "<=", ">", ">="};
+        uint64_t sh = hstr(plan.scenario.c_str());
+        for (int s = 0; s < pool && !ctx.stop; ++s) {
+            if (obj[s] == nullptr) {
+                continue;
+            }
+            if (!check_state(s, "C01", "diff:stack")) {
+                if (ctx.stop) {
+                    break;
+                }
+                resync(s);
+            }
+            if constexpr (tracked) {
+                auto* lo = slot_obj(s);
+                if (!ctx.stop && reg().live_in(lo, lo + sizeof(S)) != obj[s]->size()) {
+                    ctx.violation("C03", "lifetime:leak-inside-owner", "live elements inside the stack differ from size()");
+                }
+            }
+            if (!arena_guards_ok(s)) {
+                ctx.violation("C02", "memory:guard-damaged", "guard bytes around the stack were overwritten");
+                arena_guards_repair(s);
+            }
+            uint64_t eh = model[s].size();
+            for (int x : model[s]) {
+                eh = mix64(eh ^ static_cast<uint64_t>(x));
+            }
+            ctx.log.s(" |");
+            ctx.log.u(obj[s]->size());
+            ctx.log.feed(moved[s] ? 0x77 : eh);
+            sh = mix64(sh ^ eh ^ (static_cast<uint64_t>(s) << 56));
+        }
+        for (int x = 0; x < pool && !ctx.stop; ++x) {
+            for (int y = 0; y < pool; ++y) {
+                if (obj[x] == nullptr || obj[y] == nullptr || moved[x] || moved[y]) {
+                    continue;
+                }
+                bool r[6]{};
+                if (!observe("stack-relations", [&] {
+                        S const& a = *obj[x];
+                        S const& b = *obj[y];
+                        r[0]       = a == b;
+                        r[1]       = a != b;
+                        r[2]       = a < b;
+                        r[3]       = a <= b;
+                        r[4]       = a > b;
+                        r[5]       = a >= b;
+                    })) {
+                    return;
+                }
+                auto const& ma  = model[x];
+                auto const& mb  = model[y];
+                bool const w[6] = {ma == mb, ma != mb, ma < mb, ma <= mb, ma > mb, ma >= mb};
+                for (int k = 0; k < 6; ++k) {
+                    if (r[k] != w[k]) {
+                        ctx.violation("C01", std::string("diff:stack:relational:") + names[k], "stack relation differs from std::stack over std::vector");
+                        return;
+                    }
+                }
+            }
+        }
+        if constexpr (tracked) {
+            Base::temporaries_must_be_gone();
+        }
+        if (g_counting) {
+            states().insert(sh);
+            transitions().insert(mix64(sh ^ hstr(ctx.op)));
+        }
+    }
+
+    void changed(size_t before, size_t after)
+    {
+        ++ctx.stateChanging;
+        if ((after == N && before != N) || (after == 0 && before != 0)) {
+            ++ctx.boundaryEvents;
+        }
+    }
+
+    void step(Step const& st)
+    {
+        int const a      = static_cast<int>(st.a % static_cast<uint32_t>(pool));
+        int const b      = static_cast<int>(st.b % static_cast<uint32_t>(pool));
+        char const* name = ops()[static_cast<size_t>(st.op)].name;
+        std::string const op = name;
+        begin_op(name, a);
+        S& v            = *obj[a];
+        auto& m         = model[a];
+        size_t const sz = m.size();
+        int const val   = static_cast<int>(st.v[0]);
+        bool const flt  = st.flt != 0 && misuse;
+        ctx.log.kv("v", val);
+        ctx.log.kv("b", b);
+        if (moved[a] && op != "recreate") {
+            skip();
+            return;
+        }
+        if (op == "push_copy" || op == "push_move" || op == "emplace") {
+            bool const full = sz == N;
+            if (full && !flt) {
+                skip();
+                return;
+            }
+            T tmp(val);
+            bool ok = call(a, full, false, [&] {
+                if (op == "push_copy") {
+                    v.push(static_cast<T const&>(tmp));
+                } else if (op == "push_move") {
+                    v.push(static_cast<T&&>(tmp));
+                } else {
+                    v.emplace(val);
+                }
+            });
+            if (ok) {
+                m.push_back(val);
+                changed(sz, sz + 1);
+            }
+            return;
+        }
+        if (op == "pop") {
+            bool const empty = sz == 0;
+            if (empty && !flt) {
+                skip();
+                return;
+            }
+            bool ok = call(a, empty, false, [&] { v.pop(); });
+            if (ok) {
+                m.pop_back();
+                changed(sz, sz - 1);
+            }
+            return;
+        }
+        if (op == "top_write") {
+            bool const empty = sz == 0;
+            if (empty && !flt) {
+                skip();
+                return;
+            }
+            bool ok = call(a, empty, false, [&] { v.top() = T(val); });
+            if (ok) {
+                m.back() = val;
+                ++ctx.stateChanging;
+            }
+            return;
+        }
+        if (op == "swap") {
+            if (obj[b] == nullptr || moved[b]) {
+                skip();
+                return;
+            }
+            if (a == b) {
+                SIM_COUNT("F6.self_swap");
+            }
+            bool ok = call(a, false, false, [&] {
+                if (st.k[0] % 2 == 0) {
+                    v.swap(*obj[b]);
+                } else {
+                    using etl::swap;
+                    swap(v, *obj[b]);
+                }
+            });
+            if (ok) {
+                if (a != b) {
+                    std::swap(model[a], model[b]);
+                    ++ctx.boundaryEvents;
+                }
+                ++ctx.stateChanging;
+            } else {
+                resync(b);
+            }
+            return;
+        }
+        if (op == "recreate") {
+            int form = static_cast<int>(st.k[0] % 5);
+            if ((form == 3 || form == 4) && (a == b || obj[b] == nullptr || moved[b])) {
+                form = 0;
+            }
+            size_t const n = static_cast<size_t>(st.k[1] % (N + 1));
+            ctx.log.kv("form", form);
+            ctx.log.kv("n", static_cast<long long>(n));
+            destroy(a);
+            void* mem = raw(a);
+            S* made   = nullptr;
+            bool ok   = call(-1, false, false, [&] {
+                switch (form) {
+                case 1: { // from a container, copied
+                    C c;
+                    for (size_t i = 0; i < n; ++i) {
+                        c.push_back(T(static_cast<int>((st.v[i % 4] + static_cast<int64_t>(i)) % 8)));
+                    }
+                    made = new (mem) S(static_cast<C const&>(c));
+                    break;
+                }
+                case 2: { // from a container, moved
+                    C c;
+                    for (size_t i = 0; i < n; ++i) {
+                        c.push_back(T(static_cast<int>((st.v[i % 4] + static_cast<int64_t>(i)) % 8)));
+                    }
+                    made = new (mem) S(static_cast<C&&>(c));
+                    break;
+                }
+                case 3: made = new (mem) S(static_cast<S const&>(*obj[b])); break;
+                case 4: made = new (mem) S(static_cast<S&&>(*obj[b])); break;
+                default: made = new (mem) S(); break;
+                }
+            });
+            if (!ok) {
+                ctx.stop = true;
+                return;
+            }
+            obj[a]   = made;
+            moved[a] = false;
+            m.clear();
+            if (form == 1 || form == 2) {
+                for (size_t i = 0; i < n; ++i) {
+                    m.push_back(static_cast<int>((st.v[i % 4] + static_cast<int64_t>(i)) % 8));
+                }
+            } else if (form == 3) {
+                m = model[b];
+            } else if (form == 4) {
+                m        = model[b];
+                moved[b] = true;
+                SIM_COUNT("F7.moved_from_created");
+            }
+            changed(sz, m.size());
+            ++ctx.boundaryEvents;
+            return;
+        }
+        skip();
+    }
+
+    void run()
+    {
+        ctx.step = -1;
+        ctx.op   = "create";
+        for (int s = 0; s < pool; ++s) {
+            void* mem = raw(s);
+            guarded(true, [&] { obj[s] = new (mem) S(); });
+        }
+        observe_all();
+        ctx.log.nl();
+        for (size_t i = 0; i < plan.steps.size() && !ctx.stop; ++i) {
+            ctx.step     = static_cast<int>(i);
+            g_crash.step = ctx.step;
+            step(plan.steps[i]);
+            if (ctx.stop) {
+                break;
+            }
+            observe_all();
+            ctx.log.nl();
+        }
+        ctx.op = "destroy";
+        if (ctx.stop) {
+            reg().reset();
+            return;
+        }
+        for (int s = 0; s < pool; ++s) {
+            destroy(s);
+        }
+    }
+
+    static auto ops() -> std::vector<OpDef> const&
+    {
+        static std::vector<OpDef> const o = {{"push_copy", 10}, {"push_move", 8}, {"emplace", 8}, {"pop", 10}, {"top_write", 4}, {"swap", 5}, {"recreate", 6}};
+        return o;
+    }
+};
+
+template <typename T, size_t N>
+void add_stack(char const* tname)
+{
+    using D = StackDriver<T, N>;
+    Scenario s;
+    s.family = "vec";
+    s.name   = std::string("stack<") + tname + ",static_vector<" + tname + "," + std::to_string(N) + ">>";
+    s.ops    = D::ops();
+    s.props  = {"C01", "C02", "C05"};
+    if (is_tracked_v<T>) {
+        s.props.emplace_back("C03");
+    }
+    s.run = [](Plan const& p, Ctx& c) {
+        D d(p, c);
+        d.run();
+    };
+    registry().push_back(std::move(s));
+}
+
 template <typename T, size_t N>
 void add_static(char const* tname)
 {
@@ -1566,7 +1974,13 @@ void register_vec_2();
 void register_vec_3();
 
 #if SIM_PART == 0
-void register_vec_0() { add_all<int>("int"); }
+void register_vec_0()
+{
+    add_all<int>("int");
+    add_stack<int, 1>("int");
+    add_stack<int, 3>("int");
+    add_stack<int, 255>("int");
+}
 
 auto main(int argc, char** argv) -> int
 {
@@ -1577,7 +1991,12 @@ auto main(int argc, char** argv) -> int
     return sim::worker_main(argc, argv);
 }
 #elif SIM_PART == 1
-void register_vec_1() { add_all<sim::Tracked>("Tracked"); }
+void register_vec_1()
+{
+    add_all<sim::Tracked>("Tracked");
+    add_stack<sim::Tracked, 2>("Tracked");
+    add_stack<sim::Tracked, 4>("Tracked");
+}
 #elif SIM_PART == 2
 void register_vec_2() { add_all<sim::TrackedMoveOnly>("TrackedMoveOnly"); }
 #elif SIM_PART == 3
